@@ -19,7 +19,8 @@ RULE = ('all 65 binary tree shapes with <= 6 leaves (quick; plus Hypothesis shap
         'node, level by level) decides which leaf, if any, may start; verdict = the leaf\'s own verdict for honest proofs, '
         'False with an empty recorder when the chain breaks; pack/unpack preserves root and unlocking scripts. '
         'non-trivial = >= 3 leaves or any corruption; distinct by (shape, leaf index, pre-witness, corruption).'
-        " Serialisation restores a second tree of another shape over the same leaf scripts before asking both restored trees for every proof, commits one script at two positions, re-packs; trees are also grown step by step with every new subtree's leaves asked for their proofs before the subtree is embedded.")
+        " Serialisation restores a second tree of another shape over the same leaf scripts before asking both restored trees for every proof, commits one script at two positions, re-packs; trees are also grown step by step with every new subtree's leaves asked for their proofs before the subtree is embedded."
+        ' Every honest case also builds the pruned copy of the tree (hash-only leaves except the proving one): same root, lock and proof.')
 ASSUMPTIONS = ['leaf scripts stay below stack_max_item_size (documented precondition of commit-then-EVAL constructions)',
                'leaf scripts are pairwise distinct (unique tag), so sibling commitments differ as the property requires']
 
@@ -206,6 +207,28 @@ def check_tree(shape, bodies, leaf_idx, pre, corruption=None, k1=0, k2=0, dup=No
             fails.append(('merkle/honest-proof-runs-wrong-leaves', 'ran %r expected %r' % (seen, [tags[leaf.script.bytes]])))
         elif ok != own:
             fails.append(('merkle/verdict-differs-from-leaf-own-verdict', 'lock %r leaf alone %r' % (ok, own)))
+        # a pruned copy of the tree (whoever holds one branch knows the other leaves by their commitments only: ScriptLeaf(hash)
+        # without a script): same root, same lock, and the known leaf proves itself exactly as in the full tree
+        try:
+            it2 = iter(range(n))
+
+            def pruned(s_):
+                if s_ == 'L':
+                    i = next(it2)
+                    if i == leaf_idx % n:
+                        return T.ScriptLeaf.from_script(T.Script.from_bytes(scripts[i]))
+                    return T.ScriptLeaf(leaves[i].commitment())
+                return T.ScriptNode(pruned(s_[0]), pruned(s_[1]))
+            pt = pruned(shape)
+            known = [x for x in _leaves_of(pt) if x.script is not None]
+            if pt.root() != root or pt.locking_script().bytes != lock:
+                fails.append(('merkle/pruned-tree-has-another-root', ''))
+            elif len(known) != 1 or known[0].unlocking_script().bytes != w:
+                fails.append(('merkle/pruned-tree-gives-another-proof', ''))
+        except BaseException as e:  # noqa
+            if isinstance(e, (KeyboardInterrupt, SystemExit)):
+                raise
+            fails.append(('merkle/pruned-tree-raises-%s' % type(e).__name__, str(e)[:80]))
         # serialisation: this tree and a second tree over the same leaf scripts are both packed, then both read back,
         # then every leaf of both restored trees must still give its own proof
         try:
